@@ -19,13 +19,15 @@ Theorem c12_every_prefix_valid : forall e st levels,
 Proof. exact main_every_prefix_valid. Qed.
 Print Assumptions c12_every_prefix_valid.
 
-(* completion: every file holds its target value, every other file is untouched *)
+(* completion: every file holds its target value, every other file is untouched, and the final
+   files are exactly the start files with the logged writes applied *)
 Theorem c12_final : forall e st levels,
   hyps_ok e (sfs st) levels = true -> coherent (scache st) (sfs st) ->
   (forall k, get (sfs (fst (leveled_update e st levels))) k = get (target_of (sfs st) (concat levels)) k)
   /\ final_ok (sfs (fst (leveled_update e st levels))) (concat levels)
   /\ (forall k, ~ In k (map ukey (concat levels)) ->
-        get (sfs (fst (leveled_update e st levels))) k = get (sfs st) k).
+        get (sfs (fst (leveled_update e st levels))) k = get (sfs st) k)
+  /\ sfs (fst (leveled_update e st levels)) = apply_writes e (snd (leveled_update e st levels)) (sfs st).
 Proof. exact main_final. Qed.
 Print Assumptions c12_final.
 
